@@ -793,7 +793,7 @@ func outsGen(c *hx.Ctx) {
 func outsRun(c *hx.Ctx) {
 	lab := outsNewLab(c)
 	rows := outsAllRows()
-	cw := c.NewCaseWriter("From NV Require Import corr.Outside_corr.", "Outside_corr.case", "Outside_corr.check_case", 1500)
+	cw := c.NewCaseWriter("From NV Require Import lib.Outside_lib corr.Outside_corr.", "Outside_corr.case", "Outside_corr.check_case", 1500)
 	emit := func(r outsRow, kind string) {
 		s := lab.eval(r)
 		d := r.json()
@@ -802,29 +802,37 @@ func outsRun(c *hx.Ctx) {
 		nontrivial := s.mask != 0
 		cw.Add(hx.App("Outside_corr.COne", r.lit(), hx.N(uint64(s.mask))), kind, nontrivial, d)
 	}
-	// boundary sweep first: every row that is one feature away from acting (authentic and fresh but one gate closed)
+	// the F12 witnesses first (known finding: an unauthenticated recv_error closes the tunnel)
+	for _, rm := range []int{outsRmMatch, outsRmInvalid} {
+		emit(outsRow{ty: 2, st: 0, ver: true, via: outsViaDirect, cfgS: true, cfgA: true, idx: true, rm: rm}, "recv_error-teardown")
+	}
+	// boundary sweep: every row of a valid type whose index resolves (authentic-fresh and every near miss)
+	var deep, near []outsRow
 	for _, r := range rows {
-		if r.ver && r.st < 2 && r.idx && r.full && r.ty >= 1 && r.ty <= 6 && r.via != outsViaVpn && r.cfgS && r.cfgA {
-			emit(r, "sweep")
+		if r.ver && r.st < 2 && r.idx && r.ty >= 1 && r.ty <= 6 && r.via != outsViaVpn {
+			if r.cfgS && r.cfgA {
+				emit(r, "sweep")
+			}
+			if r.full && r.auth && r.fresh {
+				deep = append(deep, r)
+			} else {
+				near = append(near, r)
+			}
 		}
 	}
 	for i := 0; i < c.N; i++ {
 		var r outsRow
-		if c.Chance(0.7) { // mostly rows that reach the deep branch
-			for {
-				r = rows[c.Intn(len(rows))]
-				if r.ver && r.st < 2 && r.ty <= 6 {
-					break
-				}
-			}
-		} else {
-			r = rows[c.Intn(len(rows))]
-		}
 		kind := "random"
-		if r.idx && r.auth && r.fresh {
-			kind = "authentic-fresh"
-		} else if r.ty == 0 || r.ty == 2 {
-			kind = "unencrypted-type"
+		switch x := c.Intn(10); {
+		case x < 5: // authentic and fresh: the deep branch
+			r, kind = deep[c.Intn(len(deep))], "authentic-fresh"
+		case x < 7: // one gate closed
+			r, kind = near[c.Intn(len(near))], "near-miss"
+		default:
+			r = rows[c.Intn(len(rows))]
+			if r.ty == 0 || r.ty == 2 {
+				kind = "unencrypted-type"
+			}
 		}
 		emit(r, kind)
 	}
